@@ -5,7 +5,7 @@
    regenerated 16-bit decode tables. *)
 From Coq Require Import ZArith Reals List.
 From Flocq Require Import Core IEEE754.BinarySingleNaN.
-From PrismV Require Import Num.Dyadic Num.Curves Num.TableCheck Num.Quant Num.Reps.
+From PrismV Require Import Num.Dyadic Num.Curves Num.TableCheck Num.Quant Num.Reps Num.Premul.
 From PrismGen Require Import PremulTables.
 Open Scope Z_scope.
 
@@ -22,12 +22,31 @@ Theorem C14_encode_alpha_total : forall v, 0 <= quant8 v <= 255 /\ 0 <= quant16 
 Proof. exact (fun v => conj (quant_total 255 K255 ltac:(Lia.lia) K255_ok v) (quant_total 65535 K65535 ltac:(Lia.lia) K65535_ok v)). Qed.
 Print Assumptions C14_encode_alpha_total.
 
-(* premultiplied validity, margin form (partial: the step from Go's float32 evaluation of
-   (t / alpha) * alpha * 65535 + 0.5 to "a relative perturbation of at most 1 + 2^-22 and an absolute
-   one of 2^-9" is the standard IEEE-754 error model, not instantiated here): for every channel code
-   r, 65535 * decode(r) perturbed that way stays below r + 1, so the truncated result is <= r <= alpha *)
-Theorem C14_premultiplied_margin_partial :
+(* premultiplied validity, margin certificates: for every channel code r of every curve, 65535 * decode(r)
+   perturbed by the float32 roundings (relative 1 + 2^-22, absolute 2^-9) stays below r + 1, and the
+   table value is 0 or within [2^-100, 1] *)
+Theorem C14_premultiplied_margin :
   AllIdx premul_margin 0 pdec16_srgb /\ AllIdx premul_margin 0 pdec16_adobergb /\ AllIdx premul_margin 0 pdec16_prophotorgb /\
   Z.of_nat (length pdec16_srgb) = 65536 /\ Z.of_nat (length pdec16_adobergb) = 65536 /\ Z.of_nat (length pdec16_prophotorgb) = 65536.
 Proof. exact (conj pdec16_srgb_ok (conj pdec16_adobergb_ok (conj pdec16_prophotorgb_ok (conj pdec16_srgb_len (conj pdec16_adobergb_len pdec16_prophotorgb_len))))). Qed.
-Print Assumptions C14_premultiplied_margin_partial.
+Print Assumptions C14_premultiplied_margin.
+
+(* ... and the IEEE-754 link (Num/Premul.v, Flocq): Go's binary32 evaluation
+   NormalisedTo16Bit((decode(r) / alpha) * alpha) with alpha = float32(a)/65535, for EVERY alpha code
+   a >= r >= 0 (a >= 1) and every entry of each regenerated decode table, is <= a:
+   linearising a valid premultiplied pixel yields a valid premultiplied pixel *)
+Theorem C14_linearised_premultiplied_stays_valid_srgb :
+  forall r a bits, nth_error pdec16_srgb (Z.to_nat r) = Some bits -> 1 <= a <= 65535 -> 0 <= r <= a ->
+  lin_channel (of_bits32 bits) (rep K65535 a) <= a.
+Proof. exact (premul_table_valid pdec16_srgb pdec16_srgb_ok). Qed.
+Print Assumptions C14_linearised_premultiplied_stays_valid_srgb.
+Theorem C14_linearised_premultiplied_stays_valid_adobergb :
+  forall r a bits, nth_error pdec16_adobergb (Z.to_nat r) = Some bits -> 1 <= a <= 65535 -> 0 <= r <= a ->
+  lin_channel (of_bits32 bits) (rep K65535 a) <= a.
+Proof. exact (premul_table_valid pdec16_adobergb pdec16_adobergb_ok). Qed.
+Print Assumptions C14_linearised_premultiplied_stays_valid_adobergb.
+Theorem C14_linearised_premultiplied_stays_valid_prophotorgb :
+  forall r a bits, nth_error pdec16_prophotorgb (Z.to_nat r) = Some bits -> 1 <= a <= 65535 -> 0 <= r <= a ->
+  lin_channel (of_bits32 bits) (rep K65535 a) <= a.
+Proof. exact (premul_table_valid pdec16_prophotorgb pdec16_prophotorgb_ok). Qed.
+Print Assumptions C14_linearised_premultiplied_stays_valid_prophotorgb.
